@@ -560,6 +560,7 @@ func (r *collection) addService(service any, lifetime Lifetime, opts ...AddOptio
 		}
 
 		// Register each field as a separate service that points to the same constructor
+		fieldDescriptors := make([]*Descriptor, 0, len(descriptor.resultFields))
 		for _, field := range descriptor.resultFields {
 			// Create a descriptor for each field type
 			fieldDescriptor := &Descriptor{
@@ -579,18 +580,11 @@ func (r *collection) addService(service any, lifetime Lifetime, opts ...AddOptio
 				paramFields:     descriptor.paramFields,
 			}
 
-			// Register the field descriptor
-			if err := r.registerDescriptor(fieldDescriptor); err != nil {
-				return &RegistrationError{
-					ServiceType: field.Type,
-					Operation:   "register result object field",
-					Cause:       err,
-				}
-			}
+			fieldDescriptors = append(fieldDescriptors, fieldDescriptor)
 		}
 
 		// Don't register the result object type itself
-		return nil
+		return r.registerAll(fieldDescriptors, "register result object field")
 	}
 
 	// Handle multiple return types (not Out structs)
@@ -605,6 +599,7 @@ func (r *collection) addService(service any, lifetime Lifetime, opts ...AddOptio
 
 		// If we have multiple non-error returns, register each as a separate service
 		if len(nonErrorReturns) > 1 {
+			typeDescriptors := make([]*Descriptor, 0, len(nonErrorReturns))
 			for i, ret := range nonErrorReturns {
 				// Create a descriptor for each return type
 				typeDescriptor := &Descriptor{
@@ -630,22 +625,17 @@ func (r *collection) addService(service any, lifetime Lifetime, opts ...AddOptio
 					typeDescriptor.Key = nil
 				}
 
-				// Register each type descriptor
-				if err := r.registerDescriptor(typeDescriptor); err != nil {
-					return &RegistrationError{
-						ServiceType: ret.Type,
-						Operation:   "register multi-return type",
-						Cause:       err,
-					}
-				}
+				typeDescriptors = append(typeDescriptors, typeDescriptor)
 			}
-			return nil
+
+			return r.registerAll(typeDescriptors, "register multi-return type")
 		}
 	}
 
 	// Handle As option - register under interface types
 	if len(options.As) > 0 {
 		// When As is specified, register the service under each interface type
+		interfaceDescriptors := make([]*Descriptor, 0, len(options.As))
 		for _, iface := range options.As {
 			interfaceType := reflect.TypeOf(iface).Elem()
 
@@ -678,18 +668,11 @@ func (r *collection) addService(service any, lifetime Lifetime, opts ...AddOptio
 				paramFields:      descriptor.paramFields,
 			}
 
-			// Register the interface descriptor
-			if err := r.registerDescriptor(interfaceDescriptor); err != nil {
-				return &RegistrationError{
-					ServiceType: interfaceType,
-					Operation:   "register as interface",
-					Cause:       err,
-				}
-			}
+			interfaceDescriptors = append(interfaceDescriptors, interfaceDescriptor)
 		}
 
 		// If As is specified, we only register under interface types, not the concrete type
-		return nil
+		return r.registerAll(interfaceDescriptors, "register as interface")
 	}
 
 	// Register the descriptor normally
@@ -700,29 +683,19 @@ func (r *collection) addService(service any, lifetime Lifetime, opts ...AddOptio
 // Regular services are registered by type and key,
 // and grouped services are registered in their respective groups.
 func (r *collection) registerDescriptor(descriptor *Descriptor) error {
-	// Reserved types can never be registered, whatever form the registration takes
-	// (plain, As alias, multiple returns or result-object field)
-	if _, isReserved := reservedTypes[descriptor.Type]; isReserved {
-		return &ValidationError{
-			ServiceType: descriptor.Type,
-			Cause:       fmt.Errorf("service type %s is reserved and cannot be registered", formatType(descriptor.Type)),
-		}
+	if err := r.checkRegistrable(descriptor, nil); err != nil {
+		return err
 	}
 
+	r.insertDescriptor(descriptor)
+	return nil
+}
+
+// insertDescriptor adds a descriptor that has passed checkRegistrable; it cannot fail.
+func (r *collection) insertDescriptor(descriptor *Descriptor) {
 	// Register based on type of service
 	if descriptor.Key != nil || descriptor.Group == "" {
 		key := TypeKey{Type: descriptor.Type, Key: descriptor.Key}
-		if _, exists := r.services[key]; exists {
-			if descriptor.Key == nil {
-				return &AlreadyRegisteredError{ServiceType: descriptor.Type}
-			}
-			return &RegistrationError{
-				ServiceType: descriptor.Type,
-				Operation:   "register",
-				Cause:       &AlreadyRegisteredError{ServiceType: descriptor.Type},
-			}
-		}
-
 		r.services[key] = descriptor
 	} else {
 		groupKey := GroupKey{Type: descriptor.Type, Group: descriptor.Group}
@@ -734,6 +707,66 @@ func (r *collection) registerDescriptor(descriptor *Descriptor) error {
 
 	// Track in allDescriptors for efficient iteration
 	r.allDescriptors = append(r.allDescriptors, descriptor)
+}
+
+// registerAll registers the descriptors created by a single registration call
+// (result-object fields, multiple returns, As aliases). All of them are checked
+// before the first one is added, so that a rejected registration leaves the
+// collection as it was.
+func (r *collection) registerAll(descriptors []*Descriptor, operation string) error {
+	pending := make(map[TypeKey]struct{}, len(descriptors))
+	for _, descriptor := range descriptors {
+		if err := r.checkRegistrable(descriptor, pending); err != nil {
+			return &RegistrationError{
+				ServiceType: descriptor.Type,
+				Operation:   operation,
+				Cause:       err,
+			}
+		}
+	}
+
+	for _, descriptor := range descriptors {
+		r.insertDescriptor(descriptor)
+	}
+
+	return nil
+}
+
+// checkRegistrable reports why a descriptor cannot be registered, without
+// changing the collection. pending (optional) holds the identities of the
+// descriptors that will be registered together with this one.
+func (r *collection) checkRegistrable(descriptor *Descriptor, pending map[TypeKey]struct{}) error {
+	// Reserved types can never be registered, whatever form the registration takes
+	// (plain, As alias, multiple returns or result-object field)
+	if _, isReserved := reservedTypes[descriptor.Type]; isReserved {
+		return &ValidationError{
+			ServiceType: descriptor.Type,
+			Cause:       fmt.Errorf("service type %s is reserved and cannot be registered", formatType(descriptor.Type)),
+		}
+	}
+
+	// Group members never collide
+	if descriptor.Key == nil && descriptor.Group != "" {
+		return nil
+	}
+
+	key := TypeKey{Type: descriptor.Type, Key: descriptor.Key}
+	_, exists := r.services[key]
+	if !exists && pending != nil {
+		_, exists = pending[key]
+		pending[key] = struct{}{}
+	}
+
+	if exists {
+		if descriptor.Key == nil {
+			return &AlreadyRegisteredError{ServiceType: descriptor.Type}
+		}
+		return &RegistrationError{
+			ServiceType: descriptor.Type,
+			Operation:   "register",
+			Cause:       &AlreadyRegisteredError{ServiceType: descriptor.Type},
+		}
+	}
 
 	return nil
 }
